@@ -13,15 +13,6 @@ Open Scope N_scope.
 Lemma no_lf_bool : forall s, PyVM.no_lf s = true -> IntFacts.no_lf s.
 Proof. intros s H. exact H. Qed.
 
-Lemma push_float_text_leaf : forall cfg t b, IntFacts.no_lf t -> parse_float t = PFok b ->
-  pushes_leaf cfg (x46 :: t ++ [x0a]) (TFloat b).
-Proof.
-  intros cfg t b Hn Hp i st rest. cbn [app]. rewrite <- app_assoc. cbn [app].
-  eexists; eexists; eexists. split.
-  - eapply exec_one; [reflexivity|reflexivity|]. cbn [handler run]. rewrite (split_line_exact _ rest Hn), Hp. reflexivity.
-  - repeat split; try reflexivity; cbn; lia.
-Qed.
-
 Lemma push_unicode_text_leaf : forall cfg e u, IntFacts.no_lf e -> pydecode_raw_unicode_escape e = Ok u ->
   pushes_leaf cfg (x56 :: e ++ [x0a]) (TStr u).
 Proof.
@@ -181,12 +172,10 @@ Proof.
     unfold be_encode in *. change (2 ^ 64) with (256 ^ N.of_nat 8) in P. rewrite le_encode_mod in P. exact P.
   - (* FLOAT *)
     unfold float_text in H.
-    destruct (forallb float_char text || bytes_eqb text (bs "inf") || bytes_eqb text (bs "-inf") || bytes_eqb text (bs "nan")) eqn:C; [|discriminate].
+    match type of H with match (if ?cc then _ else _) with _ => _ end = _ => destruct cc eqn:C; [|discriminate] end.
     destruct (parse_float text) as [b| |] eqn:P; try discriminate. inversion H; subst.
     exists (TFloat b). split; [|reflexivity]. apply push_float_text_leaf; [|exact P].
-    apply orb_true_iff in C. destruct C as [C|C]; [|apply bytes_eqb_true in C; subst; reflexivity].
-    apply orb_true_iff in C. destruct C as [C|C]; [|apply bytes_eqb_true in C; subst; reflexivity].
-    apply orb_true_iff in C. destruct C as [C|C]; [|apply bytes_eqb_true in C; subst; reflexivity].
+    repeat (apply orb_true_iff in C; destruct C as [C|C]; [|apply bytes_eqb_true in C; subst; reflexivity]).
     apply forallb_float_no_lf. exact C.
   - (* STRING *)
     destruct quoted as [|q0 r]; [discriminate|]. destruct (lastb r) as [q1|] eqn:Lb; [|discriminate].
